@@ -18,7 +18,7 @@ import tempfile
 import time
 
 ROOT = os.path.dirname(os.path.dirname(os.path.abspath(__file__)))
-NEEDED = ["python/gtirb", "python/version.py.in", "proto", "version.txt", "java/com/grammatech/gtirb"]
+NEEDED = ["python/gtirb", "python/tests", "python/version.py.in", "proto", "version.txt", "java/com/grammatech/gtirb"]
 
 
 def make_copy(repo="/repo"):
